@@ -2,12 +2,43 @@
   C02 — client commands reach the server backend with the caller's arguments intact.
   Property theorems only.
 
-  Phase 1 (this file so far): the machine-checked witnesses that the three client defects repaired
-  for this property violated it (`Quirks` switches the shipped behaviour back on in the writer
-  mirror), each next to the statement that the repaired writer delivers the same call intact.
+  Setting.  `roundTrip q cfg tag c` (Model/CmdGrammar.lean) writes the client call `c` with the mirror of the
+  imapclient command writers and reads the resulting items with the mirror of the imapserver command readers;
+  `sem cfg c` (Spec/CmdGrammar.lean) is the list of session calls `c` stands for, computed from the caller's
+  arguments alone.  The wire is modelled at item level: raw bytes, with IMAP strings, the APPEND literal and
+  the two date tokens as opaque items (their byte encodings are property C01 / the time package; the tie
+  re-derives them byte for byte on every run).  `q = {}` is the repaired code.
+
+  PROVED (cmd_fidelity, per command family; hypotheses: `MailboxOK`, `strOk`, `SetOK`+`SetNF`, `FlagOK`, …):
+    * cmd_fidelity_login, _select (SELECT/EXAMINE, incl. the implied Unselect), _create (USE attributes), _delete,
+      _rename, _subscribe, _unsubscribe
+    * cmd_fidelity_store (set, add / remove / replace, .SILENT, flag list)
+    * cmd_fidelity_copy, _move (MOVE capability), _move_emulated (COPY + STORE +FLAGS.SILENT (\Deleted) + [UID] EXPUNGE),
+      _expunge, _uid_expunge
+    * cmd_fidelity_status, and _status_any_order: for EVERY order in which the client may take the items out of its map
+    * cmd_fidelity_list (selection options, reference, pattern through readListMailbox, RETURN options incl. STATUS (…))
+    * cmd_fidelity_search: every criteria tree (all key kinds, arbitrarily nested NOT/OR, the ON rule), any return
+      options, CHARSET — by induction over the tree with the reader's nesting budget shown sufficient
+    * cmd_fidelity_fetch: scalar items, BODY/BODYSTRUCTURE, body sections (part path × specifier × header-field
+      lists × partial × peek), BINARY / BINARY.PEEK / BINARY.SIZE sections, UID numbering implying the UID item
+    * cmd_fidelity_append (+ _append_sem): mailbox, flag list, date-time, literal
+    * legacy_*_counterexample / *_repaired: the three defects repaired for this property (F14 LIST pattern, F15 SAVE,
+      F30 ON rule) violated it; the repaired writer does not.
+
+  Scope of the theorems vs. the oracle:
+    * map-ordered items (FETCH scalars, LIST RETURN (STATUS …), SEARCH RETURN) are proved for the writer's listed
+      order; order independence is proved for STATUS (`cmd_fidelity_status_any_order`) and validated on every run
+      for the others (the tie compares them as multisets);
+    * number sets: canonical sets (`SetOK`, what AddNum/AddRange/ParseSet build) in the specification's normal form
+      (`SetNF`); literal, non-canonical range lists a caller can write down are validated by the oracle only
+      (it compares sets by denotation);
+    * the `Advertised` side condition of the design statement is not needed: the reader mirror does not consult
+      capabilities, so the theorems hold for every configuration (MOVE is split by `cfg.hasMove`);
+    * outside the model (oracle and tie only, or out of the property): strings above the server's 4096-byte limit,
+      mailbox names that are not valid UTF-8, CONDSTORE items, negative numbers.
 -/
 import GoImap.Spec.CmdGrammar
-import GoImap.Lemmas.CmdGrammarSearchTop
+import GoImap.Lemmas.CmdGrammarFetch
 namespace GoImap.C02
 open GoImap.CmdGrammar GoImap.CmdSpec GoImap.CmdLemmas
 
@@ -42,7 +73,7 @@ def jan1 : Int := 63713433600
 def straddle : Cmd :=
   .search false (.mk { since := { day := jan1, inst := jan1 + 82800 }, before := { day := jan1 + 172800, inst := jan1 + 169200 } } .nil .nil) none
 
-/-- F29 as shipped: the pair went out as `ON 1-Jan-2020`, i.e. before = 2 January: a day is lost -/
+/-- F30 as shipped: the pair went out as `ON 1-Jan-2020`, i.e. before = 2 January: a day is lost -/
 theorem legacy_on_counterexample :
     roundTrip { onByInstant := true } {} 1 straddle
         = .calls [.search false (.mk { since := dateOnly jan1, before := dateOnly (jan1 + 86400) } .nil .nil) (some { all := true })]
@@ -209,6 +240,42 @@ example : CritOK sampleCrit := by
 
 example : roundTrip {} {} 7 (.search true sampleCrit (some { count := true, save := true })) =
     .calls (sem {} (.search true sampleCrit (some { count := true, save := true }))) := by
+  decide +kernel
+
+
+/-- FETCH / UID FETCH: the message set and every item — UID, BODY / BODYSTRUCTURE, ENVELOPE, FLAGS, INTERNALDATE,
+    RFC822.SIZE, body sections, binary sections and sizes (`FetchOK`: sections within the grammar, no MODSEQ) -/
+theorem cmd_fidelity_fetch (cfg : Cfg) (tag : Nat) (uid : Bool) (s : NSet) (o : FetchOpts)
+    (hs : SetOK s) (hnf : SetNF s) (ho : FetchOK o) :
+    roundTrip {} cfg tag (.fetch uid s o) = .calls (sem cfg (.fetch uid s o)) :=
+  fetch_fidelity cfg tag uid s o hs hnf ho
+
+/-- non-vacuity: `BODY.PEEK[1.2.HEADER.FIELDS ("Subject" "é")]<0.4096>`, `BODY[TEXT]`, `BINARY.PEEK[3]<5.10>`, `BINARY.SIZE[]` -/
+def sampleFetch : FetchOpts :=
+  { bodyStructure := some true, flags := true, size := true,
+    sections := [{ spec := .header, part := [1, 2], fields := [str "Subject", [195, 169]], slice := some ⟨0, 4096⟩, peek := true },
+                 { spec := .text }],
+    binary := [{ part := [3], slice := some ⟨5, 10⟩, peek := true }], binarySize := [[]] }
+
+example : FetchOK sampleFetch := by
+  refine ⟨rfl, ?_, ?_, ?_⟩
+  · intro b hb
+    simp only [sampleFetch, List.mem_cons, List.not_mem_nil, or_false] at hb
+    rcases hb with rfl | rfl
+    · exact ⟨by intro n hn; simp at hn; rcases hn with rfl | rfl <;> decide, Or.inr rfl, fun _ => rfl,
+        by intro h hh; simp at hh; rcases hh with rfl | rfl <;> decide, by simp [SliceOK]⟩
+    · exact ⟨by intro n hn; simp at hn, Or.inl rfl, by intro h; simp at h, by intro h hh; simp at hh, trivial⟩
+  · intro b hb
+    simp only [sampleFetch, List.mem_singleton] at hb
+    subst hb
+    exact ⟨by intro n hn; simp at hn; subst hn; decide, by simp [SliceOK]⟩
+  · intro p hp
+    simp only [sampleFetch, List.mem_singleton] at hp
+    subst hp
+    intro n hn; simp at hn
+
+example : roundTrip {} {} 3 (.fetch true (.set [⟨1, 3⟩, ⟨7, 0⟩]) sampleFetch) =
+    .calls (sem {} (.fetch true (.set [⟨1, 3⟩, ⟨7, 0⟩]) sampleFetch)) := by
   decide +kernel
 
 end GoImap.C02
